@@ -176,6 +176,7 @@ V = [
     ("estimator-other-type", ["C10"], "DIM-NORM", "FockOperationType.compute_dimensions", [("photon_weave/operation/fock_operation.py", "FockOperationType.compute_dimensions", "                    Operation(FockOperationType.Expresion, **kwargs),", "                    Operation(FockOperationType.Identity, **kwargs),")]),
     ("resize-guard-other-member", ["C10", "C17"], "RESIZE", "Envelope.resize_fock", [(S + "envelope.py", "Envelope.resize_fock", "                to = self.trace_out(self.fock)\n                assert isinstance(to, jnp.ndarray)\n                num_quanta = num_quanta_vector(to)", "                to = self.trace_out(self.polarization)\n                assert isinstance(to, jnp.ndarray)\n                num_quanta = num_quanta_vector(to)")]),
     ("squeeze-real-shortcut", ["C12"], "DEFS", "squeezing_operator", [("photon_weave/_math/ops.py", "squeezing_operator", "    operator = 0.5 * (jnp.conj(zeta) * (destroy @ destroy) - zeta * (create @ create))\n    return expm(operator)", "    if not jnp.iscomplexobj(zeta):\n        return expm(0.5 * jnp.abs(zeta) * (destroy @ destroy - create @ create))\n    operator = 0.5 * (jnp.conj(zeta) * (destroy @ destroy) - zeta * (create @ create))\n    return expm(operator)")]),
+    ("est-tail-single-level", ["C10"], "EST-TAIL", "FockDimensions._compute_dimensions", [("photon_weave/operation/helpers/fock_dimension_esitmation.py", "FockDimensions._compute_dimensions", "            if jnp.max(jnp.abs(resulting_state[-2:, 0])) > (1 - self.threshold) * 1e-3:", "            if jnp.abs(resulting_state[-1, 0]) > (1 - self.threshold) * 1e-3:")]),
     ("evict-missing", ["C05", "C13", "C20"], "BOOK-evict", "ProductState.measure", [(S + "composite_envelope.py", "ProductState.measure", "                # Remove the mesaured state from the product state\n                self.state_objs.remove(state)\n", "")]),
 ]
 
